@@ -88,6 +88,11 @@ M5 == M(-1, 1, 8, L(252,255,255,255))             \* [ecx*8-4]
 M6 == M(0, 0, 1, L(0,16,0,0))                     \* [eax+eax*1+0x1000]
 MemQ == {M1, M2}
 MemT == {M3, M4, M5, M6}
+\* every shape of a 32-bit effective address: base x index x scale x displacement class, including base = index (the decoder
+\* merges the two into one coefficient 2, 3, 5 or 9) and the base-less scaled index
+AddrForms == {M(b, i, sc, d) : b \in {-1, 0, 1, 3, 5}, i \in {-1, 0, 1, 6}, sc \in {1, 2, 4, 8}, d \in {Z4, L(16,0,0,0), L(252,255,255,255)}}
+                \ {m \in {M(b, i, sc, d) : b \in {-1, 0, 1, 3, 5}, i \in {-1, 0, 1, 6}, sc \in {1, 2, 4, 8}, d \in {Z4, L(16,0,0,0), L(252,255,255,255)}} :
+                       (m.i = -1 /\ m.sc # 1) \/ (m.b = -1 /\ m.i = -1) \/ (m.b = 5 /\ m.i = -1 /\ IsZero(m.d))}
 Ws == {8, 16, 32}
 
 \* ---- instance families ---------------------------------------------------------------
@@ -149,6 +154,8 @@ Movs2 ==
      \cup {I2(mn, w, <<m, R(RC(w), 1)>>, "mr", m = M1) : mn \in {"xadd", "cmpxchg"}, m \in MemQ \cup MemT}
      : w \in Ws}
    \cup UNION {{I2("lea", w, <<R(RC(w), 0), m>>, "rm", m \in MemQ) : m \in MemQ \cup MemT} : w \in {16, 32}}
+   \cup {I2("lea", 32, <<R("r32", 2), m>>, "rm", TRUE) : m \in AddrForms}
+   \cup {I2("mov", 32, <<R("r32", 2), m>>, "rm", m.b = m.i) : m \in AddrForms}
 Stack ==
    {I2("push", 32, <<R("r32", n)>>, "r", TRUE) : n \in {0, 4, 5}} \cup {I2("push", 16, <<R("r16", n)>>, "r", n = 0) : n \in {0, 4}}
    \cup {I2("push", 32, <<Imm(v)>>, "i", TRUE) : v \in {L(1,0,0,0), L(128,0,0,0), L(128,255,255,255), L(120,86,52,18)}}
@@ -248,4 +255,41 @@ GenState(i, sd, k) ==
    IN TLCEval([s1 EXCEPT !.reg = reg2, !.over = over2])
 \* the address an instance is placed at (the lifted semantics takes the next eip as a constant)
 EipOf(n) == <<L(0,16,0,0), L(0,16,64,0), L(240,255,255,127), L(0,240,255,255)>>[(n % 4) + 1]
+\* ---- evaluating lifted IR in an X86Sem state (shared by T_C04 and T_C08) ------------------
+FlagIds == <<"cf", "pf", "af", "zf", "nf", "df", "of">>            \* miasmX names, in the order of FlagNames (nf = SF)
+SegIds == {"ds", "es", "ss", "cs"}
+Modelled == {RegNames[k] : k \in 1..8} \cup {FlagIds[k] : k \in 1..7} \cup SegIds
+FlagGet(fl, k) == CASE k = 1 -> fl.cf [] k = 2 -> fl.pf [] k = 3 -> fl.af [] k = 4 -> fl.zf [] k = 5 -> fl.sf [] k = 6 -> fl.df [] k = 7 -> fl.of
+EnvOf(s, extra) ==
+   [id |-> TLCEval([n \in Modelled \cup extra |->
+              IF \E k \in 1..8 : RegNames[k] = n THEN s.reg[CHOOSE k \in 1..8 : RegNames[k] = n]
+              ELSE IF \E k \in 1..7 : FlagIds[k] = n THEN <<FlagGet(s.fl, CHOOSE k \in 1..7 : FlagIds[k] = n)>>
+              ELSE <<0, 0, 0, 0, 0, 0, 0, 0, 0, 0, 0, 0, 0, 0, 0, 0>>]),          \* flat segmentation: selectors / bases 0
+    seed |-> s.seed, over |-> s.over]
+
+\* IR!WellTyped without the width-agreement rules (operands of a binary operator, arms of a condition): such trees are
+\* reported as C04.welltyped but still have a value under IR!Eval (operands are extended / truncated to the width of the first)
+RECURSIVE Loose(_)
+Loose(e) ==
+  CASE e.k = "int" -> e.w >= 1 /\ IsBV(e.v, e.w)
+    [] e.k = "id" -> e.w >= 1
+    [] e.k = "mem" -> /\ e.w >= 8 /\ e.w % 8 = 0 /\ Len(e.a) = 1 /\ Loose(e.a[1]) /\ e.a[1].k # "aff" /\ Width(e.a[1]) >= 1
+                      /\ \A j \in 1..Len(e.g) : Loose(e.g[j]) /\ e.g[j].k # "aff"
+    [] e.k = "op" -> /\ Len(e.a) >= 1
+                     /\ \A j \in 1..Len(e.a) : Loose(e.a[j]) /\ e.a[j].k # "aff" /\ Width(e.a[j]) >= 1
+                     /\ (e.o \in ACOps \cup {"=="} => Len(e.a) >= 2)
+                     /\ (e.o = "-" => Len(e.a) \in {1, 2})
+                     /\ (e.o \in Shifts \cup {"=="} => Len(e.a) = 2)
+                     /\ (e.o \in {"parity", "!"} => Len(e.a) = 1)
+                     /\ (e.o \in DivOps \cup RcOps => Len(e.a) = 3)
+                     /\ (e.o \in MulOps => Len(e.a) = 2)
+    [] e.k = "cond" -> Len(e.a) = 3 /\ \A j \in 1..3 : Loose(e.a[j]) /\ e.a[j].k # "aff" /\ Width(e.a[j]) >= 1
+    [] e.k = "slice" -> /\ Len(e.a) = 1 /\ Loose(e.a[1]) /\ e.a[1].k # "aff"
+                        /\ 0 <= e.lo /\ e.lo < e.hi /\ e.hi <= Width(e.a[1])
+    [] e.k = "compose" -> /\ Len(e.a) >= 1 /\ Len(e.a) = Len(e.s)
+                          /\ \A j \in 1..Len(e.a) : /\ Loose(e.a[j]) /\ e.a[j].k # "aff"
+                                                    /\ Width(e.a[j]) >= e.s[j][2] - e.s[j][1]
+                                                    /\ e.s[j][1] >= 0 /\ e.s[j][2] > e.s[j][1]
+                          /\ Tiles(e.s, Width(e))
+    [] OTHER -> FALSE
 =============================================================================
